@@ -119,6 +119,11 @@ def _len_guarded(pm, node, fn_node):
     for p, c in enclosing(pm, node, stop=fn_node):
         if isinstance(p, ast.IfExp) and p.body is c and want in norm(p.test):
             return True
+        if isinstance(p, ast.BoolOp) and isinstance(p.op, ast.And):
+            # `len(row) > i and row[i] != missing`: an earlier conjunct guards the later ones
+            idx = [k for k, v in enumerate(p.values) if v is c]
+            if idx and any(want in norm(v) for v in p.values[:idx[0]]):
+                return True
         if isinstance(p, ast.If) and any(c is b for b in p.body) and want in norm(p.test):
             return True
         if isinstance(p, (ast.GeneratorExp, ast.ListComp)):
@@ -183,46 +188,79 @@ def r122(ctx, rep):
 
 # ------------------------------------------------------------------------ R12.3
 def r123(ctx, rep):
+    """asindices: for every field selector -- an in-range integer resolves to itself (index has priority over a
+    name), otherwise a name resolves to its first unused position and is consumed (so duplicate names resolve
+    left to right), otherwise FieldSelectionError.  Decided per valuation of the three tests on the effect
+    sequences of the selector loop, whatever the ladder looks like and whatever the locals are called."""
+    from ..ladder import paths, resolve, atoms_in
     fn = ctx.project.need_fn('petl.util.base:asindices')
-    loops = [l for l in own_nodes(fn.node) if isinstance(l, ast.For) and norm(l.iter) == 'spec']
+    specp = fn.posparams[1] if len(fn.posparams) > 1 else 'spec'
+    hdrp = fn.posparams[0]
+    loops = [l for l in own_nodes(fn.node) if isinstance(l, ast.For) and norm(l.iter) == specp and isinstance(l.target, ast.Name)]
     if len(loops) != 1:
-        raise AnalysisError('anchor vanished: `for s in spec` in asindices')
+        raise AnalysisError('anchor vanished: the loop over the field selectors in asindices')
     lp = loops[0]
-    atoms = collect_atoms(lp.body)
-    known = {'isinstance(s, int)', 's < len(hdr)', 's in flds'}
-    if not set(atoms) <= known:
+    s = lp.target.id
+    # the list of field names that is searched and consumed
+    atoms = []
+    for x in ast.walk(lp):
+        if isinstance(x, (ast.If, ast.IfExp)):
+            for a in atoms_in(x.test):
+                if a not in atoms:
+                    atoms.append(a)
+    a_int = [a for a in atoms if a.startswith('isinstance(%s, ' % s) and 'int' in a]
+    a_rng = [a for a in atoms if a in ('%s < len(%s)' % (s, hdrp), 'len(%s) > %s' % (hdrp, s))]
+    a_nam = [a for a in atoms if a.startswith('%s in ' % s)]
+    other = [a for a in atoms if a not in a_int + a_rng + a_nam]
+    if len(a_int) != 1 or len(a_rng) != 1 or len(a_nam) != 1 or other:
         rep.undecided('R12.3', fn, 'ladder', 'tests %s' % atoms, lp)
         return
+    names_list = a_nam[0].split(' in ', 1)[1]
     import itertools
     for isint, inrange, isname in itertools.product((True, False), repeat=3):
         if inrange and not isint:
             continue       # `s < len(hdr)` is only meaningful for integers
-        val = {'isinstance(s, int)': isint, 's < len(hdr)': inrange, 's in flds': isname}
-        try:
-            oc = simulate(lp.body, val)
-        except Unsupported as e:
-            rep.undecided('R12.3', fn, str(val), str(e), lp)
-            continue
-        texts = oc.effect_texts()
+        val = {a_int[0]: isint, a_rng[0]: inrange, a_nam[0]: isname}
         if isint and inrange:
             want = 'index'
         elif isname:
             want = 'name'
         else:
             want = 'error'
-        if oc.kind == 'raise':
-            got = 'error' if 'FieldSelectionError' in norm(oc.node) else 'raise-other'
-        elif texts == ['indices.append(s)']:
-            got = 'index'
-        elif texts == ['idx = flds.index(s)', 'indices.append(idx)', 'flds[idx] = None']:
-            got = 'name'
-        elif 'indices.append(idx)' in texts and 'flds[idx] = None' not in texts:
-            got = 'name-not-consumed'
-        else:
-            got = 'other: ' + ' ; '.join(texts)
         case = 'int=%s in-range=%s field-name=%s' % (isint, inrange, isname)
-        if got == want:
+        gots = set()
+        for pth in paths(lp.body, val):
+            if pth.free:
+                gots.add('undetermined test %s' % norm(pth.free[0][0]))
+                continue
+            if pth.kind == 'raise':
+                gots.add('error' if 'FieldSelectionError' in norm(pth.node) else 'raise-other')
+                continue
+            # what is collected for this selector
+            app = [c for st in pth.effects for c in ast.walk(st) if isinstance(c, ast.Call) and
+                   isinstance(c.func, ast.Attribute) and c.func.attr == 'append' and c.args]
+            if len(app) != 1:
+                gots.add('other: ' + ' ; '.join(pth.texts()))
+                continue
+            before = pth.effects[:[i for i, st in enumerate(pth.effects) if any(c is app[0] for c in ast.walk(st))][0]]
+            v = norm(resolve(app[0].args[0], before))
+            if v == s:
+                gots.add('index')
+            elif v == '%s.index(%s)' % (names_list, s):
+                consumed = False
+                for i, st in enumerate(pth.effects):
+                    if isinstance(st, ast.Assign) and len(st.targets) == 1 and isinstance(st.targets[0], ast.Subscript) and \
+                            norm(st.targets[0].value) == names_list and isinstance(st.value, ast.Constant) and st.value.value is None \
+                            and norm(resolve(st.targets[0].slice, pth.effects[:i])) == v:
+                        consumed = True
+                gots.add('name' if consumed else 'name-not-consumed')
+            else:
+                gots.add('other: collects ' + v)
+        got = ' / '.join(sorted(gots)) or 'nothing'
+        if gots == {want}:
             rep.held('R12.3', fn, case, got, lp)
+        elif any(g.startswith('undetermined') for g in gots):
+            rep.undecided('R12.3', fn, case, got, lp)
         else:
             rep.violated('R12.3', fn, case,
                          'field spec resolves as `%s`, documented behaviour is `%s` (an in-range index has priority over a '
